@@ -87,6 +87,26 @@ Proof. unfold unbe. rewrite fold_unbe_app. rewrite fold_unbe_shift. reflexivity.
 Lemma unbe_cons x l : unbe (x :: l) = x * 256 ^ len l + unbe l.
 Proof. change (x :: l) with ([x] ++ l). rewrite unbe_app. unfold unbe at 1. cbn [fold_left]. lia. Qed.
 
+(** [be k] only depends on the value modulo 256^k *)
+Lemma be_drop_high m k : forall v w, Z.of_nat k <= m -> be k (w * 256 ^ m + v) = be k v.
+Proof.
+  induction k as [|k IHk]; intros v w Hm; [reflexivity|]. cbn [be].
+  rewrite IHk by lia. f_equal.
+  replace (256 ^ m) with (256 ^ (m - Z.of_nat k) * 256 ^ Z.of_nat k) by (rewrite <- Z.pow_add_r by lia; f_equal; lia).
+  rewrite Z.mul_assoc. rewrite Z.div_add_l by (pose proof (pow256_pos k); lia).
+  replace (256 ^ (m - Z.of_nat k)) with (256 * 256 ^ (m - Z.of_nat k - 1)).
+  2:{ rewrite <- Z.pow_succ_r by lia. f_equal. lia. }
+  rewrite Z.mul_assoc. rewrite (Z.mul_comm w 256). rewrite <- Z.mul_assoc.
+  rewrite Z.add_comm. rewrite Z.mul_comm. rewrite Z_mod_plus_full. reflexivity.
+Qed.
+
+Lemma be_mod k v : be k (v mod 256 ^ Z.of_nat k) = be k v.
+Proof.
+  pose proof (pow256_pos k) as Hp.
+  rewrite (Z.div_mod v (256 ^ Z.of_nat k)) at 2 by lia.
+  rewrite (Z.mul_comm (256 ^ Z.of_nat k)). rewrite be_drop_high by lia. reflexivity.
+Qed.
+
 (** be is the inverse of unbe on byte strings of the right length *)
 Lemma be_unbe l : bytes_ok l = true -> be (length l) (unbe l) = l.
 Proof.
@@ -98,19 +118,29 @@ Proof.
   assert (Hp : 0 < 256 ^ len l) by (apply Z.pow_pos_nonneg; [lia | apply len_nonneg]).
   f_equal.
   - rewrite Z.div_add_l by lia. rewrite (Z.div_small (unbe l)) by lia. rewrite Z.add_0_r. apply Z.mod_small; lia.
-  - rewrite <- (IH Hl) at 2.
-    (* be only depends on v mod 256^n *)
-    clear IH. generalize (length l) at 1 3 as n. intros n.
-    assert (G : forall m k v w, (Z.of_nat k <= m) -> be k (w * 256 ^ m + v) = be k v).
-    { intros m k. induction k as [|k IHk]; intros v w Hm; [reflexivity|]. cbn [be].
-      rewrite IHk by lia. f_equal.
-      replace (256 ^ m) with (256 ^ (m - Z.of_nat k) * 256 ^ Z.of_nat k) by (rewrite <- Z.pow_add_r by lia; f_equal; lia).
-      rewrite Z.mul_assoc. rewrite Z.div_add_l by (pose proof (pow256_pos k); lia).
-      replace (256 ^ (m - Z.of_nat k)) with (256 * 256 ^ (m - Z.of_nat k - 1)).
-      2:{ rewrite <- Z.pow_succ_r by lia. f_equal. lia. }
-      rewrite Z.mul_assoc. rewrite (Z.mul_comm w 256). rewrite <- Z.mul_assoc.
-      rewrite Z.add_comm. rewrite Z.mul_comm. rewrite Z_mod_plus_full. reflexivity. }
-    destruct (Z_le_gt_dec (Z.of_nat n) (len l)) as [Hle|Hgt].
-    + apply G. exact Hle.
-    + (* n > len l: not needed in practice but true only when ... we avoid it *)
-      Abort.
+  - rewrite be_drop_high by (unfold len; lia). apply IH. exact Hl.
+Qed.
+
+Lemma bytes_ok_app a b : bytes_ok (a ++ b) = bytes_ok a && bytes_ok b.
+Proof. unfold bytes_ok. apply forallb_app. Qed.
+
+Lemma bytes_ok_zeros n : bytes_ok (zeros n) = true.
+Proof. unfold zeros, bytes_ok. induction (Z.to_nat n) as [|k IH]; cbn [repeat forallb]; [reflexivity | rewrite IH; reflexivity]. Qed.
+
+Lemma len_zeros n : 0 <= n -> len (zeros n) = n.
+Proof. intros H. unfold len, zeros. rewrite repeat_length. lia. Qed.
+
+Lemma take_app_exact {A} (a b : list A) : take (len a) (a ++ b) = a.
+Proof. unfold take, len. rewrite Nat2Z.id. rewrite firstn_app. rewrite Nat.sub_diag. cbn [firstn]. rewrite firstn_all. apply app_nil_r. Qed.
+
+Lemma drop_app_exact {A} (a b : list A) : drop (len a) (a ++ b) = b.
+Proof. unfold drop, len. rewrite Nat2Z.id. rewrite skipn_app. rewrite Nat.sub_diag. rewrite skipn_all. reflexivity. Qed.
+
+Lemma pad8_range l : 0 <= pad8 l < 8.
+Proof. unfold pad8. apply Z.mod_pos_bound. lia. Qed.
+
+Lemma pad8_sum l : (l + pad8 l) mod 8 = 0.
+Proof. unfold pad8. pose proof (Z.mod_pos_bound l 8 ltac:(lia)) as H. pose proof (Z.div_mod l 8 ltac:(lia)) as E.
+  destruct (Z.eq_dec (l mod 8) 0) as [Hz|Hz].
+  - rewrite Hz. change ((8 - 0) mod 8) with 0. rewrite Z.add_0_r. exact Hz.
+  - rewrite (Z.mod_small (8 - l mod 8)) by lia. rewrite E at 1. replace (8 * (l / 8) + l mod 8 + (8 - l mod 8)) with ((l / 8 + 1) * 8) by lia. apply Z_mod_mult. Qed.
